@@ -55,6 +55,9 @@ pub fn story_to_json_value(
             Value::Object(named_content)
         }
     ]);
+    if let Some(error) = context.expression_error.take() {
+        return Err(error);
+    }
     compact_story_paths(&mut root_value);
 
     let mut output = serde_json::Map::new();
@@ -115,6 +118,10 @@ struct EmitContext {
     /// generated, so that it is found wherever an expression can stand (also in the
     /// `{…}` of string literals, choice text and tags, which are only parsed here).
     consts: BTreeMap<String, Vec<Value>>,
+    /// The first error met inside an expression. Expressions are emitted by a function that
+    /// cannot fail (see `nesting`), but the inline logic of a string literal can: the error
+    /// waits here until `story_to_json_value` returns it.
+    expression_error: std::cell::RefCell<Option<CompilerError>>,
 }
 
 fn register_unqualified_flow_target(
@@ -387,6 +394,7 @@ impl EmitContext {
             function_ref_param_positions,
             unqualified_flow_targets,
             consts: BTreeMap::new(),
+            expression_error: std::cell::RefCell::new(None),
         };
         // The values are emitted while the context knows no constant yet: a constant
         // named in the value of another one is not replaced in turn, so constants that
@@ -401,6 +409,10 @@ impl EmitContext {
             })
             .collect();
         context
+    }
+
+    fn keep_expression_error(&self, error: CompilerError) {
+        self.expression_error.borrow_mut().get_or_insert(error);
     }
 
     /// Look up a bare item name (e.g. "b") across all lists.
